@@ -369,6 +369,7 @@ def ind_noninterference_task(n_ind=2, shape=(1,), prop=PROP):
             if tag == "A":
                 return a
             b = st.sym(name + "'", shp, f32, register=True)
+            hold.setdefault("Braw", {})[name] = b
             arr = b.sym.copy()
             arr[0] = hold["A"][name].sym[0]
             return st.mk(arr, f32)
@@ -426,19 +427,40 @@ print('individual 0 in execution A:', a); print('individual 0 in execution B (sa
 sys.exit(0 if all(same(x, y) for x, y in zip(a, b)) else 1)
 """
 
+        def corner_pins():
+            """designated corner points used only to look for a counterexample when the full float32 query times out: ordinary numbers for
+            individual 0 and for execution B, a huge (finite) value / datum for another individual of execution A (its likelihood overflows)"""
+            pins = []
+            for big_v, big_o in ((1e30, 0.25), (0.5, -1e30), (3e19, 0.25)):
+                pin = [(hold["tinv"], torch.tensor(1.0))]
+                for name, t_ in hold["A"].items():
+                    base = {"v": 0.5, "o": 0.25, "std": 1.0, "z": -0.25, "u": 0.5}[name]  # individual 0 moves onto its datum: accepted whatever the uniform
+                    val = torch.full(tuple(t_.sym.shape), base)
+                    if name == "v":
+                        val[1:] = big_v
+                    if name == "o":
+                        val[1:] = big_o
+                    pin.append((t_, val))
+                for name, t_ in hold["Braw"].items():
+                    base = {"v": 0.5, "o": 0.25, "std": 1.0, "z": -0.25, "u": 0.5}[name]  # individual 0 moves onto its datum: accepted whatever the uniform
+                    pin.append((t_, torch.full(tuple(t_.sym.shape), base)))
+                pins.append(pin)
+            return pins
+
         for c, res in st.explore(run, "F"):
             rec.end_path(c)
             if isinstance(res, Exception):
                 raise res
             (va, ha, aa), (vb, hb, ab) = res
+            pins = corner_pins()
             if rec.violations:
                 T.STOP_EXPLORATION = True  # one reproduced counterexample decides the task
                 break
             for k, (x, y) in enumerate(zip(va, vb)):
-                rec.prove(f"value[0][{k}]#{rec.paths}", T.same_value(x, y), replay=rp, key=f"{prop}:noninterference", timeout_ms=120000,
+                rec.prove(f"value[0][{k}]#{rec.paths}", T.same_value(x, y), replay=rp, key=f"{prop}:noninterference", timeout_ms=60000, pins=pins,
                           what="the new value of an individual depends on the other individuals (their likelihoods, draws or values)")
-            rec.prove(f"decision[0]#{rec.paths}", T.same_value(ha, hb), replay=rp, key=f"{prop}:noninterference", timeout_ms=120000, what="the recorded decision of an individual depends on the other individuals")
-            rec.prove(f"attachment[0]#{rec.paths}", T.same_value(aa, ab), replay=rp, key=f"{prop}:noninterference", timeout_ms=120000, what="the refreshed attachment of an individual depends on the other individuals")
+            rec.prove(f"decision[0]#{rec.paths}", T.same_value(ha, hb), replay=rp, key=f"{prop}:noninterference", timeout_ms=60000, pins=pins, what="the recorded decision of an individual depends on the other individuals")
+            rec.prove(f"attachment[0]#{rec.paths}", T.same_value(aa, ab), replay=rp, key=f"{prop}:noninterference", timeout_ms=60000, pins=pins, what="the refreshed attachment of an individual depends on the other individuals")
             if rec.paths == 1:
                 rec.twin("path", timeout_ms=60000)
         rec.sample({"theory": "IEEE float32", "individuals": n_ind, "row_shape": list(shape), "claim": "2-safety: executions equal on individual 0 give it the same transition"})
